@@ -13,6 +13,7 @@
   recursion limits, CPU time) is the search half of this property (harness).
 -/
 import ICal.Lemmas.Parse
+import ICal.Lemmas.BodiesParse
 namespace ICal.C04
 
 /-- On the current source exactly one registered component class sets `ignore_exceptions`:
@@ -297,5 +298,31 @@ example : pstep (fun _ => true) decNone inTodo lBad = none := by decide
 example : prun (fun _ => false) decNone
     ⟨[.mk nVTIMEZONE [⟨nTZID, false, [⟨['v','T','e','x','t'], ['X'], []⟩]⟩] [] []], [], false⟩
     [['E','N','D',':','V','T','I','M','E','Z','O','N','E']] = none := by decide
+
+/-! ## the regenerated `Component.from_ical` (ICal/Gen/BodiesParse.lean, rewritten from cal.py by tools/py2lean.py on every run) -/
+
+/-- one iteration of the translated loop is `pstep`, of which the theorems above speak -/
+theorem body_from_ical_step (tzok : Comp → Bool) (dec : Dec) (st : PState) (hst : st.stopped = false) (line : Str) (rest : List Str) :
+    Bodies.loopP tzok dec st.stack.reverse st.comps (line :: rest) = Bodies.liftStep tzok dec rest (pstep tzok dec st line) :=
+  Bodies.loop_cons tzok dec st hst line rest
+
+/-- the translated loop is `prun` -/
+theorem body_from_ical_loop (tzok : Comp → Bool) (dec : Dec) (lines : List Str) (st : PState) (hst : st.stopped = false) :
+    Bodies.loopP tzok dec st.stack.reverse st.comps lines =
+      match prun tzok dec st lines with
+      | none => .error .valueError
+      | some st' => .ok (st'.stack.reverse, st'.comps) :=
+  Bodies.loop_prun tzok dec lines st hst
+
+/-- the only exception that leaves the translated `from_ical` is ValueError (the IndexError of `comps[0]`,
+    of `stack.pop()` and of `stack[-1]` cannot happen) -/
+theorem body_raises_only_valueError (tzok : Comp → Bool) (dec : Dec) (st : Str) (multiple : Bool) (e : PyRT.Exc)
+    (h : Bodies.fromIcalP tzok dec st multiple = .error e) : e = .valueError :=
+  Bodies.fromIcal_raises_only_valueError tzok dec st multiple e h
+
+/-- the translated function raises exactly when the model's parse fails -/
+theorem body_fails_iff (tzok : Comp → Bool) (dec : Dec) (st : Str) (multiple : Bool) :
+    Bodies.fromIcalTrees tzok dec multiple st = none ↔ parseText tzok dec multiple st = none := by
+  rw [Bodies.fromIcalTrees_parseText]
 
 end ICal.C04
